@@ -323,7 +323,10 @@ var operandKinds = []string{"AL", "CX", "EDX", "ES", "CR0", "DR1", "TR6", "MM0",
 	"WORD [0x1234]", "[ESP+EBP*2-1]", "deflabel", "nolabel", "UNDEFEQU", "8:0x10", "DWORD 2*8:0x1b", "SHORT deflabel", "FAR [BX]", "$", "$+4", "[deflabel]", "[nolabel+2]", "ES:[DI]", "(1+2)*3", "1/0", "5%0",
 	"{{.x}}", "\"{{.deflabel}}\"", "[]", "[BX+]", "BYTE", "[BX*3]", "[AX]", "[EAX+EBX+ECX]", "[ESP*2]", "AX:BX", "1:2:3", "--1", "+1", "'", "\"unterminated", "[BX", "BX]",
 	// degenerate literals and seg:off pairs made of them (a literal is re-rendered without its quotes, so the text downstream can be empty)
-	"''", "\"\"", "' '", "'':5", "5:''", "\"\":\"\"", "' ':' '", "'ab':'cd'", "deflabel:deflabel", "nolabel:5", "-1:-1", "0x10000:5", "DWORD '':5", "['']", "''+1", "$:$", "5:", ":5", "[5:5]"}
+	"''", "\"\"", "' '", "'':5", "5:''", "\"\":\"\"", "' ':' '", "'ab':'cd'", "deflabel:deflabel", "nolabel:5", "-1:-1", "0x10000:5", "DWORD '':5", "['']", "''+1", "$:$", "5:", ":5", "[5:5]",
+	// character constants of several lengths, with characters outside ASCII (more bytes than characters), and numbers beyond every integer type
+	"'ab'", "'abcd'", "'abcde'", "'\u3042\u3044'", "'\u00e9'", "'\uff71\uff72'", "'\u3042\u3044\u3046\u3048'", "\"\u3042\"", "'a\u3042'", "99999999999999999999999", "0x", "0xffffffffffffffffffffffff", "-99999999999999999999999",
+	"1234567890123456789012345678901234567890123456789012345678901234567890123456789012345678901234567890"}
 
 func genC13Cases(env *Env, r *Rand, n int, full bool) []Case {
 	ops := grammarOpcodes(env.Repo)
